@@ -166,6 +166,10 @@ pub struct Spec {
     /// Babbage and later: this many plain reference inputs (field 18) with their own UTxO entries (role "reference")
     #[serde(default)]
     pub ref_inputs: u8,
+    /// Conway: treasury donation (body field 22). It is left out of the balance, as the validator's preservation rule
+    /// does not count it; it must not be counted as fee either.
+    #[serde(default)]
+    pub donation: Option<u32>,
 }
 
 #[derive(Debug, Clone)]
@@ -670,6 +674,11 @@ pub fn forge_with(spec: &Spec, tw: &Tweaks) -> Result<Forged, String> {
         }
         if !cert_nodes.is_empty() {
             m.push((4, cx::array(cert_nodes.clone())));
+        }
+        if let (Some(d), EraK::Conway) = (spec.donation, era) {
+            if d > 0 {
+                m.push((22, cx::uint(d as u64)));
+            }
         }
         if !ref_refs.is_empty() {
             let mut r = ref_refs.clone();
